@@ -200,7 +200,7 @@ _DKG_RULE = ("full protocol executions with a deterministic in-process scheduler
              "and the property predicates (agreement on verdict/keys/disqualified sets, private share matches public share, t+1 shares sign for the group key, no honest participant blamed, bad dealers disqualified, plain Feldman never keys on bad vector/share) are evaluated on the real run")
 
 CONFIG["C07"] = dict(
-    lean_modules=["Props.C07"], generators=["C07"], level="proof", rule=_DKG_RULE, trusted_base=BLS_TB,
+    lean_modules=["Props.C07", "Props.C07Model"], generators=["C07"], level="proof", rule=_DKG_RULE, trusted_base=BLS_TB,
     technique="Lean 4 proof (commutation of reorderable deliveries, invariants, congruence up to complaint-table order, schedule independence of End; agreement between different receivers by a shadow-observer simulation, composed over the n instances of Joint-Feldman API executions; share-consistency invariant over all behaviours; shape of End results) + differential run of every honest node + agreement predicates on real executions",
     level_text="Theorems for every state: Qual End returns keys only when not disqualified, no complaint unanswered, keys = those of the stored valid vector, share non-zero; the End verdict is a function of (disqualified, complaints, vector, share); Joint End fails beyond t disqualified dealers. "
                "Schedule quantifier (Feldman-VSS-Qual, participant other than the dealer, every crypto record): any two deliveries the network may reorder (different senders, or one sender's private and broadcast channel) commute "
@@ -224,6 +224,8 @@ CONFIG["C07"] = dict(
                "(fresh receiver instances, and the own dealer instance satisfying DS); a non-vacuity example runs the API with both Start calls succeeding and End returning keys at both. "
                "The round-one content of OwnNet is discharged from the dealer's own Start (Proofs/DkgEmit): dealer_start_outputs - Start emits the broadcast of the verification vector of the polynomial it drew and one private share message a(i+1) per other participant - and receiver_accepts_dealer_emission - "
                "under the laws tying the writers of the crypto record to its readers (OpsLaws: the serialized vector parses back, a written share reads back, the Feldman check accepts a(i+1) against the vector of a; satisfiable: example) a receiver classifies exactly these messages, in every state, as the dealer's vector and its own valid share. "
+               "For the BLS record the driver runs, the key law is a theorem of the executable model (Props.C07Model, Proofs/BlsFeldman over the E2 group bridge): bls_feldman_identity - the commitment vector (a_k * g2) evaluated 'in the exponent' at x (model of E2_polynomial_image) equals polyEval a x * g2 - and "
+               "bls_honest_share_passes_check - the share a(i+1) passes checkLog against the public key shares a receiver derives from the dealer's commitments, for every polynomial, group size and receiver. "
                "What remains a hypothesis: the delivery itself (these messages arrive in round one, unaltered and once), that every complainer is answered in time with a valid answer, and at most t complainers.",
     level_note="Lean kernel + correspondence; reliable broadcast and round synchrony are assumptions of the property, implemented by the scheduler",
     assumptions=["reliable broadcast, round-synchronous delivery, at most t Byzantine participants"],
